@@ -75,6 +75,14 @@ Definition handle (ts : list tok) : list tok :=
         | Some (offs, data) => sym "ok" :: TInt (Z.of_nat (length offs)) :: map TInt offs ++ [TBytes data]
         | None => [sym "wait"]
         end
+      else if is_sym "nego" cmd then      (* nego <ext 0|1> <csize> <accept large> <accept std> -> <opened> <ext'> <csize'> { <large?> <size field> }* *)
+        match r with
+        | [TInt e; TInt c; TInt al; TInt ast] =>
+            let '(att, st', opened) := negotiate {| fo_ext := zb e; fo_csize := c |} (zb al) (zb ast) in
+            TInt (if opened then 1 else 0) :: TInt (if fo_ext st' then 1 else 0) :: TInt (fo_csize st')
+            :: flat_map (fun a : bool * Z => [TInt (if fst a then 1 else 0); TInt (snd a)]) att
+        | _ => [sym "ERR"; sym "args"]
+        end
       else [sym "ERR"; sym "badcmd"]
   | _ => [sym "ERR"; sym "badline"]
   end.
